@@ -2,7 +2,8 @@
 (* Trace specification of C11 (implementation -> model).  cmd/codec -mode mutate feeds seeded byte-level and
    structure-aware mutants of valid, really signed objects to the REAL decoders (tx.Transaction.UnmarshalBinary /
    DecodeRLP, block.Header, block.Block + block.DecodeRawBlock, tx.Receipt) and logs one event per input:
-       [e |-> "Dec", i, kind, x (the bytes), ok (accepted?), same (re-encoded byte-identically?), size (Size() or -1)]
+       [e |-> "Dec", i, kind, x (the bytes), ok (accepted?), same (re-encoded byte-identically?), size (Size() or -1),
+        s0ok, s0n, s1ok, s1n (stream decodes with limit Len(x) and Len(x)-1: accepted? bytes consumed)]
    Here every logged verdict is recomputed from the bytes alone with Codec!Decode and must be the logged one; for an
    accepted input the specification's own Encode(Decode(x)) must give x back (RoundTrips on an input the model did
    not choose), the implementation must have re-encoded identically and reported Size() = the model's SizeOf.
@@ -28,6 +29,16 @@ Dec_ == /\ Ev.e = "Dec"
            /\ d.ok => /\ Encode(Ev.kind, d.v) = Ev.x
                       /\ Ev.same
                       /\ Ev.size = SizeOf(Ev.kind, d.v)
+        \* the stream entry points (rlp.NewStream(reader, limit).Decode, rlp.Decode): verdict AND number of bytes consumed,
+        \* for limit = Len(x) and limit = Len(x) - 1; what was consumed re-encodes identically
+        /\ Ev.kind \in StreamKinds =>
+             /\ LET s == StreamDecode(Ev.kind, Ev.x, 0) IN
+                  /\ s.ok = Ev.s0ok
+                  /\ s.ok => (s.n = Ev.s0n /\ Encode(Ev.kind, s.v) = SubSeq(Ev.x, 1, s.n))
+             /\ Len(Ev.x) > 1 =>
+                  LET s == StreamDecode(Ev.kind, Ev.x, Len(Ev.x) - 1) IN
+                  /\ s.ok = Ev.s1ok
+                  /\ s.ok => (s.n = Ev.s1n /\ Encode(Ev.kind, s.v) = SubSeq(Ev.x, 1, s.n))
 
 End == Ev.e = "End" /\ Ev.n = n /\ n' = n
 
